@@ -134,6 +134,10 @@ M = [
  ("c09_feed_returns_len", "C09", "returns-consumed", "crates/jxl-oxide/src/lib.rs",
   "                    self.inner.aux_boxes.handle_event(aux_box_event)?;\n                }\n            }\n        }\n        Ok(self.reader.previous_consumed_bytes())",
   "                    self.inner.aux_boxes.handle_event(aux_box_event)?;\n                }\n            }\n        }\n        Ok(buf.len())"),
+ ("c04_mtf_copy_range", "C04", "R-CLUSTER-MAP", "crates/jxl-coding/src/lib.rs",
+  "                mtfmap.copy_within(0..idx, 1);", "                mtfmap.copy_within(0..=idx, 1);"),
+ ("c04_cluster_count_from_len", "C04", "R-CLUSTER-MAP", "crates/jxl-coding/src/lib.rs",
+  "    let num_clusters = *cluster.iter().max().unwrap() as u32 + 1;", "    let num_clusters = *cluster.iter().max().unwrap() as u32 + 1;\n    let num_clusters = num_clusters.max(2).min(num_dist);"),
  ("c04_hybrid_msb_width", "C04", "R-HYBRID-CONFIG", "crates/jxl-coding/src/lib.rs",
   "            let msb_bits = add_log2_ceil(split_exponent) as usize;", "            let msb_bits = add_log2_ceil(log_alphabet_size) as usize;"),
  ("c10_nomoreaux_jxlp_last", "C10", "R-NOMOREAUX", "crates/jxl-bitstream/src/container/parse.rs",
